@@ -3,6 +3,8 @@ import LenaModel.Model.C16
 import LenaModel.Model.C16Spec
 import LenaModel.Model.C16X
 import LenaModel.Model.C16P
+import LenaModel.Model.C16S
+import LenaModel.Model.C16S
 /-! Model driver for C16.  Every request carries the adapter arguments
   "caps":[run,fill,request,compute,reset] (booleans: which callables the wrapped element has),
   "bufsize":int, "reset":null|bool, "bi":bool, "bo":bool, "yor":bool
@@ -13,7 +15,8 @@ and (except for "init") the test element
    FillRequestSeq with a preceding `x ↦ x+10` / a following `r ↦ r + [99]`).
 Requests:
   {"op":"init",...}                -> {"e":"LenaTypeError"|"LenaValueError"} | {"fill":b,"request":b,"reset":b}
-  {"op":"run",...,"xs":[ints]}     -> {"e":..} | {"r":[[ints]],"spec":[[ints]]}  (spec: block specification)
+  {"op":"run",...,"xs":[ints]}     -> {"e":..} | {"r":[[ints]],"spec":[[ints]],"rt":[ints],"spect":[ints],"nread":n}
+      (spec: block specification; rt: values read when each result is yielded, spect: rhs of run_streams)
   {"op":"ops",...,"ops":[int|null]} (null = request) -> {"e":..} | {"t":[[out|null,n_count,len_in,len_out],..]}
   {"op":"split",...,"m":int|null,"xs":[ints]} -> {"e":..} | {"r":[[ints]]}
 Replies also carry the specification side of the theorems, evaluated on the same case:
@@ -173,7 +176,15 @@ def handle (j : Json) : Json :=
         -- "spec": the right-hand side of theorem `run_blocks` (block specification), compared as well
         -- "rc": `RunConsistent` on this flow (the element's run = fill every value, request), for elements with both
         let rcOk := t.map || ((e.run [] xs) == blockFill e [] xs)
+        -- when the results appear (Model/C16S.lean): "rt" = for every result the number of values read before it in the
+        -- events of `run`; "spect" = the right-hand side of theorem `run_streams`; "nread" = the values read in all
+        -- when the results appear (Model/C16S.lean): "rt" = for every result the number of values read before it in the
+        -- events of `run`; "spect" = the right-hand side of theorem `run_streams`; "nread" = the values read in all
         let base : List (String × Json) := [("r", ofOuts r1.1), ("rc", Json.bool rcOk),
+          ("rt", ofList ofNat (tags (runFREv e c [] xs))), ("nread", ofNat (readsOf (runFREv e c [] xs)).length),
+          ("spect", ofList ofNat (specTags (blockOf e c) e.reset c.bufsize c.reset c.yor 0 [] (chunks c.bufsize xs))),
+          ("rt", ofList ofNat (tags (runFREv e c [] xs))), ("nread", ofNat (readsOf (runFREv e c [] xs)).length),
+          ("spect", ofList ofNat (specTags (blockOf e c) e.reset c.bufsize c.reset c.yor 0 [] (chunks c.bufsize xs))),
           ("spec", ofOuts (specBlocks (blockOf e c) e.reset c.bufsize c.reset c.yor [] (chunks c.bufsize xs))),
           -- the right-hand side of theorem `seq_run_blocks` (FillRequestSeq: `_run_fill_compute`)
           ("seqspec", ofOuts (specBlocks
